@@ -3,6 +3,7 @@
 From Coq Require Import ZArith List Bool Lia.
 From ME Require Import Model.Prelude Model.ChordParse Model.ChordCmp Proofs.ChordLattice Proofs.ChordVocab Proofs.ChordSound.
 From ME Require Import Model.RowExp Gen.ChordRules Proofs.ChordRulesTie.
+From ME Require Import Model.PyStr Model.PyStrChord Gen.ChordParseGen Proofs.ChordParseTie.
 Import ListNotations.
 Open Scope Z_scope.
 
@@ -92,3 +93,22 @@ Theorem C11_translated_rules_agree_on_labels :
   Forall2 (fun g m => forall r e : str, reval_labels g r e = cmp_labels m r e) gen_rules rules.
 Proof. exact gen_rules_labels_agree. Qed.
 Print Assumptions C11_translated_rules_agree_on_labels.
+(* --- the encodings the rules are applied to come from the source's (translated) encode / encode_many --- *)
+Theorem C11_encode_source_is_model :
+  forall sord : list str -> list str,
+         (forall l : list str, Permutation.Permutation (sord l) l) ->
+         forall (s : str) (red strict : bool),
+         run sord gen_encode [VStr s; VBool red; VBool strict] = lift v_enc (encode s red strict).
+Proof. exact (@encode_tie). Qed.
+Print Assumptions C11_encode_source_is_model.
+Theorem C11_encode_many_source_is_model :
+  forall (sord : list str -> list str) (labels : list str) (red : bool),
+         run sord gen_encode_many [v_strs labels; VBool red] =
+         lift v_encs (ChordPipeline.encode_many labels red).
+Proof. exact (@encode_many_tie). Qed.
+Print Assumptions C11_encode_many_source_is_model.
+Theorem C11_rotate_bitmap_to_root_source_is_model :
+  forall (sord : list str -> list str) (b : list Z) (rt : Z),
+         length b = 12%nat -> run sord gen_rotate_bitmap_to_root [VArr b; VInt rt] = OK (VArr (rot b rt)).
+Proof. exact (@rotate_bitmap_to_root_tie). Qed.
+Print Assumptions C11_rotate_bitmap_to_root_source_is_model.
